@@ -7,5 +7,6 @@ CONSTANTS
  Defect_SharedBucketHandle = FALSE
  Defect_NoVersionCheck = FALSE
  AllowEvict = TRUE
+ Defect_ReaderUnlocked = FALSE
 INVARIANTS NoClosedBucketRead ReaderSnapshotConsistent CoherentWithOwnVersion
 CHECK_DEADLOCK FALSE
